@@ -327,7 +327,9 @@ def check_proofs(prop_module, files):
         if n not in ax:
             problems.append("no axiom report for " + n)
             continue
-        extra = [a for a in ax[n] if a not in ALLOWED_AXIOMS and "bv_decide" not in a and a != "Lean.ofReduceBool" and a != "Lean.trustCompiler"]
+        # `bv_decide` certificates (and the compiler trust they rest on) are accepted for the word-level lemmas of C15 only
+        bv_ok = prop_module.endswith(".C15")
+        extra = [a for a in ax[n] if a not in ALLOWED_AXIOMS and not (bv_ok and ("bv_decide" in a or a in ("Lean.ofReduceBool", "Lean.trustCompiler")))]
         if extra or "sorryAx" in ax[n]:
             problems.append("%s depends on %s" % (n, ax[n]))
         else:
